@@ -48,6 +48,26 @@ func runC02B(t *testing.T, c Case) (res result, nontrivial bool) {
 		}
 		return full, false
 	}
+	if full.err == nil && full.foreign != "" {
+		// An assertion owned by another property (model mismatch of a query,
+		// a return value, a revision ...) fired. If the history runs clean
+		// once the aborted transactions before that point are elided, the
+		// mismatch is a trace of an aborted transaction: that is C02's.
+		before := false
+		for i, e := range full.elidable {
+			before = before || (e && i < full.foreignAt)
+		}
+		aborted := full.foreignAt >= 0 && full.foreignAt < len(full.elidable) && full.elidable[full.foreignAt]
+		if before && !aborted {
+			elided := Run(t, c, "C02", Options{Trace: true, Skip: full.elidable})
+			if elided.err == nil && elided.foreign == "" && !elided.panicked {
+				full.sig = "abort-trace-divergence"
+				full.err = fmt.Errorf("%s (assertion of %s) - it fires only when the aborted transactions before it (ops %v) have run; with them elided the whole history agrees with the model", full.foreignMsg, full.foreign, elidedIdx(full.elidable))
+				full.foreign = ""
+			}
+		}
+		return full, false
+	}
 	if full.err != nil || full.foreign != "" {
 		return full, false
 	}
